@@ -474,7 +474,16 @@ func Described(info *spec.EMsg, g *GV) *GV {
 		switch {
 		case ok && f.Msg != nil:
 			e = describedIn(f.Msg, e)
-		case ok || keep[k]:
+		case ok:
+		case keep[k]:
+			// oneof holder or embedded pointer: project inside with the message of the branch / the embedded fields
+			if e.K == "o" && !e.Nil {
+				for _, bf := range info.Fields {
+					if bf.Oneof == k && bf.GoName == e.Keys[0] && bf.Msg != nil {
+						e = &GV{K: "o", Keys: e.Keys, Elems: []*GV{describedIn(bf.Msg, e.Elems[0])}}
+					}
+				}
+			}
 		default:
 			continue // not described: dropped from the comparison
 		}
